@@ -14,6 +14,12 @@ def run(tier, seed, replay=None, prop=PROP):
         mc_stats = {"distinct": 0, "generated": 0}
     else:
         cases, mc_stats, _ = vlib.run_mc("MC_C05.tla", "C05_%s.cfg" % tier, "C05", workers=8, timeout=3000)
+        if tier == "thorough" and prop == "C05":
+            # plus seeded random documents of the SchemaGen machine whose root is an enforced construct
+            gcases, gst0 = vlib.gen_cases(seed, 900)
+            gcases = [c for c in gcases if c["enforced"]]
+            cases = cases + gcases
+            mc_stats["simulated"] = dict(gst0, enforced_documents=len(gcases))
     items = []
     for c in cases:
         defs = c["calls"][0]["doc"]["defs"]
